@@ -16,7 +16,11 @@ type calleeInfo struct {
 	sig      *types.Signature
 	fc       *FuncContract
 	display  string
+	extFn    string
 }
+
+var purePkgs = map[string]bool{"utf8": true, "unicode": true, "strings": true, "strconv": true, "math": true, "errors": true, "path": true, "filepath": true, "utf16": true}
+var assumedPure = map[string]bool{}
 
 func typeBaseName(t types.Type) string {
 	t = types.Unalias(t)
@@ -107,6 +111,22 @@ func (fx *FnCtx) resolveCallee(st *State, call *ast.CallExpr) *calleeInfo {
 		}
 	}
 	ci.display = strings.Join(ci.keys, "|")
+	if ci.fc == nil && len(ci.keys) == 1 && ci.recvExpr == nil {
+		// functions of side-effect-free standard packages without an explicit contract are
+		// modelled as pure uninterpreted functions of their arguments (assumption, listed)
+		if i := strings.Index(ci.keys[0], "."); i > 0 && purePkgs[ci.keys[0][:i]] && !ci.sig.Variadic() {
+			fc := &FuncContract{Key: ci.keys[0], Pure: true, HasMod: true, Trusted: true, Loops: map[int][]*Clause{}}
+			for k := 0; k < ci.sig.Params().Len(); k++ {
+				fc.Params = append(fc.Params, SVar{fmt.Sprintf("a%d", k), ""})
+			}
+			for k := 0; k < ci.sig.Results().Len(); k++ {
+				fc.Results = append(fc.Results, SVar{fmt.Sprintf("r%d", k), ""})
+			}
+			ci.fc, ci.key = fc, ci.keys[0]
+			ci.extFn = "ext_" + sanitize(ci.keys[0])
+			assumedPure[ci.keys[0]] = true
+		}
+	}
 	if ci.fc == nil {
 		fx.fail("no contract for callee %s at %s", ci.display, fx.pos(call))
 	}
@@ -705,6 +725,22 @@ func (fx *FnCtx) applyCall(st *State, ci *calleeInfo, recv *Val, args []Val, at 
 		}
 	}
 	cenv.named = named
+	if ci.extFn != "" {
+		var sorts, as []string
+		for _, a := range args {
+			sorts = append(sorts, a.S)
+			as = append(as, a.T)
+		}
+		for i, r := range st.retVals {
+			fn := fmt.Sprintf("%s_%d", ci.extFn, i)
+			fx.sc.declFun(fn, "(declare-fun "+fn+" ("+strings.Join(sorts, " ")+") "+r.S+")")
+			if len(as) == 0 {
+				st.assume("(= " + r.T + " " + fn + ")")
+			} else {
+				st.assume("(= " + r.T + " (" + fn + " " + strings.Join(as, " ") + "))")
+			}
+		}
+	}
 	for _, e := range fc.Ensures {
 		st.assume(fx.specBool(cenv, e.Expr))
 	}
